@@ -143,6 +143,122 @@ theorem initial_method (S : Sys T X) (c : ICfg) (x0 : X) (t0 : T) :
   · intro h hf; simp [initialMethod, h, hf]
   · intro h hf; simp [initialMethod, h, hf]
 
+/-! ### sessions: several calls on one instance
+
+The single-call theorems above say what one call returns as a function of `(x0, t0, t)`.  An instance also
+carries `_odeTime` and `_odeSolution` from earlier calls; these theorems say that they never matter. -/
+
+/-- one operation returns the single-call function of the values the instance holds, and leaves the
+assigned values alone unless it is an assignment -/
+theorem step_spec (E : SEnv T X) (s : Inst T X) (op : SOp T X) :
+    (s.step E op).2 = op.out E (s.x0, s.t0) ∧
+    ((s.step E op).1.x0, (s.step E op).1.t0) = op.assign (s.x0, s.t0) := by
+  cases op with
+  | setX0 x => exact ⟨rfl, rfl⟩
+  | setT0 t => exact ⟨rfl, rfl⟩
+  | setBoth x t => exact ⟨rfl, rfl⟩
+  | integrate t =>
+    simp only [Inst.step, Inst.integrate, SOp.out, SOp.assign, modelIntegrate]
+    cases h : setIntegrateTime s.t0 t <;> simp [Except.map]
+  | solveDeterm t =>
+    cases t with
+    | none => exact ⟨rfl, rfl⟩
+    | some t =>
+      simp only [Inst.step, Inst.integrate, SOp.out, SOp.assign, solveDeterm, modelIntegrate]
+      cases h : setIntegrateTime s.t0 t <;> simp [Except.map]
+  | integrate2 m t =>
+    simp only [Inst.step, SOp.out, SOp.assign, modelIntegrate2]
+    cases h : setIntegrateTime s.t0 t with
+    | error e => simp [Except.map]
+    | ok times =>
+      cases times with
+      | nil => simp [Except.map]
+      | cons a rest => simp [Except.map]
+
+/-- **session_is_pure.**  For EVERY history of assignments and solves on one instance, started from any
+instance state (whatever `_odeTime` and `_odeSolution` hold), the results returned are exactly the
+single-call functions (`modelIntegrate`, `solveDeterm`, `modelIntegrate2`) of each call's own arguments and
+the initial state / time assigned last. -/
+theorem session_is_pure (E : SEnv T X) (ops : List (SOp T X)) (s : Inst T X) :
+    (runOps E s ops).2 = pureOutputs E (s.x0, s.t0) ops := by
+  induction ops generalizing s with
+  | nil => rfl
+  | cons op ops ih =>
+    obtain ⟨h1, h2⟩ := step_spec E s op
+    simp only [runOps, pureOutputs]
+    rw [ih, h1, h2]
+
+/-- the instance a history leaves behind holds the values assigned last -/
+theorem session_state (E : SEnv T X) (ops : List (SOp T X)) (s : Inst T X) :
+    ((runOps E s ops).1.x0, (runOps E s ops).1.t0) = ops.foldl SOp.assign (s.x0, s.t0) := by
+  induction ops generalizing s with
+  | nil => rfl
+  | cons op ops ih =>
+    simp only [runOps, List.foldl_cons]
+    rw [ih, (step_spec E s op).2]
+
+/-- **earlier_results_kept.**  Continuing a session never changes what it has already returned: the outputs
+of `ops` are a prefix of the outputs of `ops ++ more`, and the rest is the session `more` run from the
+instance `ops` left behind. -/
+theorem earlier_results_kept (E : SEnv T X) (ops more : List (SOp T X)) (s : Inst T X) :
+    (runOps E s (ops ++ more)).2 = (runOps E s ops).2 ++ (runOps E (runOps E s ops).1 more).2 := by
+  induction ops generalizing s with
+  | nil => rfl
+  | cons op ops ih => simp only [List.cons_append, runOps, ih, List.append_assoc]
+
+/-- **solve_reads_current.**  After any history, `integrate` on a non-empty grid returns the state assigned
+last followed by the flow FROM THE TIME ASSIGNED LAST at each requested time - in particular a grid solved
+before, under another initial time, state or method, gives no stale rows. -/
+theorem solve_reads_current (E : SEnv T X) (ops : List (SOp T X)) (s : Inst T X) (t : T) (ts : List T) :
+    (runOps E s (ops ++ [.integrate (.list (t :: ts))])).2
+      = (runOps E s ops).2 ++
+        [.ok ((ops.foldl SOp.assign (s.x0, s.t0)).1 ::
+              (t :: ts).map (fun u => E.S.flow u (ops.foldl SOp.assign (s.x0, s.t0)).2 (ops.foldl SOp.assign (s.x0, s.t0)).1))] := by
+  rw [earlier_results_kept, session_is_pure E [_]]
+  simp only [pureOutputs, SOp.out, Option.toList, List.append_nil]
+  have h := session_state E ops s
+  have hx : (runOps E s ops).1.x0 = (ops.foldl SOp.assign (s.x0, s.t0)).1 := congrArg Prod.fst h
+  have ht : (runOps E s ops).1.t0 = (ops.foldl SOp.assign (s.x0, s.t0)).2 := congrArg Prod.snd h
+  rw [hx, ht, (integrate_rows E.S _ _ t ts).1]
+
+/-- the same for `integrate2` with any method (needs the laws: the full-output path restarts the integrator) -/
+theorem solve2_reads_current (E : SEnv T X) (L : Laws E.S) (ops : List (SOp T X)) (s : Inst T X)
+    (m : Option String) (t : T) (ts : List T) :
+    (runOps E s (ops ++ [.integrate2 m (.list (t :: ts))])).2
+      = (runOps E s ops).2 ++
+        [.ok ((ops.foldl SOp.assign (s.x0, s.t0)).1 ::
+              (t :: ts).map (fun u => E.S.flow u (ops.foldl SOp.assign (s.x0, s.t0)).2 (ops.foldl SOp.assign (s.x0, s.t0)).1))] := by
+  rw [earlier_results_kept, session_is_pure E [_]]
+  simp only [pureOutputs, SOp.out, Option.toList, List.append_nil]
+  have h := session_state E ops s
+  have hx : (runOps E s ops).1.x0 = (ops.foldl SOp.assign (s.x0, s.t0)).1 := congrArg Prod.fst h
+  have ht : (runOps E s ops).1.t0 = (ops.foldl SOp.assign (s.x0, s.t0)).2 := congrArg Prod.snd h
+  rw [hx, ht, (integrate2_rows E.S L E.aliased E.copyOnRead m _ _ t ts).1]
+
+/-! A `_setIntegrateTime` that keeps the time vector it built last when the requested grid repeats (and so
+does not look at the initial time) is NOT such a function: the statement above is about the code as it is. -/
+
+/-- the variant: `integrate(t)` that re-uses `_odeTime` when `t` equals the grid solved last -/
+def staleIntegrate (S : Sys Int Int) (s : Inst Int Int) (g : List Int) : Inst Int Int × List Int :=
+  let times := match s.odeTime with
+    | some (t0' :: old) => if old = g then t0' :: old else s.t0 :: g
+    | _ => s.t0 :: g
+  let rows := odeintRows S s.x0 times
+  ({ s with odeTime := some times, odeSolution := some rows }, rows)
+
+/-- **stale_grid_counterexample.**  Solve on `[6, 7]` from `t0 = 0`, move the initial time to `5`, solve on
+the same grid: the variant repeats the rows of the first call, the model of the real code returns the flow
+from `t0 = 5`. -/
+theorem stale_grid_counterexample :
+    let S : Sys Int Int := { flow := fun t t0 x => x + 3 * (t - t0), eig := fun _ _ => (-1, -3) }
+    let s0 : Inst Int Int := { x0 := 10, t0 := 0 }
+    let s1 := (staleIntegrate S s0 [6, 7]).1
+    (staleIntegrate S s0 [6, 7]).2 = [10, 28, 31] ∧
+    (staleIntegrate S { s1 with t0 := 5 } [6, 7]).2 = [10, 28, 31] ∧
+    (runOps ⟨S, fun _ => false, true⟩ s0 [.integrate (.list [6, 7]), .setT0 5, .integrate (.list [6, 7])]).2
+      = [.ok [10, 28, 31], .ok [10, 13, 16]] := by
+  refine ⟨by decide, by decide, by rfl⟩
+
 /-! ### the driver's executable instance satisfies the laws -/
 
 theorem linFlow_id (c : List Rat) (t : Rat) (x : List Rat) : linFlow c t t x = x := by
